@@ -74,7 +74,7 @@ PROPS = {
                  "a request by a non-root account; distinct by the full case."),
         "assumptions": ["the endpoint behind the proxy is a versitygw posix gateway (no AWS S3 offline); self-signed certificate with --ssl-skip-verify stands for https"],
         "jobs": [
-            {"run": "TestC18A", "quick": 320, "thorough": 8000, "shards_quick": 8, "shards_thorough": 16},
+            {"run": "TestC18A", "quick": 320, "thorough": 40000, "shards_quick": 8, "shards_thorough": 16},
         ],
     },
     "C19": {
